@@ -198,10 +198,12 @@ package vm
 // instrumentation; the journalling implementation is proved in core/state, C09).
 //@ ghost snapctr (_ BitVec 64)
 //@ ghost reverted_to (_ BitVec 64)
+// snapnonces[id]: the nonce map at the moment snapshot id was taken.
+//@ ghost snapnonces (Array (_ BitVec 64) (Array (Array (_ BitVec 64) (_ BitVec 8)) (_ BitVec 64)))
 //@ type StateDB.Snapshot
 //@   trusted
-//@   ensures result == old(snapctr) && snapctr == old(snapctr) + 1
-//@   assigns snapctr
+//@   ensures result == old(snapctr) && snapctr == old(snapctr) + 1 && snapnonces == store(old(snapnonces), old(snapctr), nonces)
+//@   assigns snapctr, snapnonces
 //@ type StateDB.RevertToSnapshot
 //@   trusted
 //@   ensures reverted_to == arg0
@@ -242,16 +244,17 @@ package vm
 //@   ensures[C06,C07] @gas leftOverGas <= gas
 //@   ensures[C07] @revert err != nil && runs > old(runs) ==> reverted_to == old(snapctr)
 //@   ensures[C07] @depth !old(evm.vmConfig.NoRecursion && evm.depth > 0) && old(evm.depth) > 1024 ==> err == ErrDepth && runs == old(runs) && leftOverGas == gas
-//@   assigns bal, nonces, refundctr, supply, snapctr, reverted_to, ro_at_run, runs, vm_failed
+//@   assigns bal, nonces, refundctr, supply, snapctr, snapnonces, reverted_to, ro_at_run, runs, vm_failed
 //@   noframe
 
 //@ func EVM.Create
 //@   axiom vm_failed == (err != nil)
-//@   requires[C07] evm != nil && evm.interpreter != nil && evm.StateDB != nil && evm.chainConfig != nil
+//@   requires[C07] evm != nil && evm.interpreter != nil && evm.StateDB != nil && evm.chainConfig != nil && snapctr < 9223372036854775807
 //@   axiom leftOverGas <= gas
 //@   ensures[C07] @revert err != nil && err != ErrCodeStoreOutOfGas && runs > old(runs) ==> reverted_to == old(snapctr)
 //@   ensures[C07] @depth old(evm.depth) > 1024 ==> err == ErrDepth && runs == old(runs) && leftOverGas == gas && nonces == old(nonces)
-//@   assigns bal, nonces, refundctr, supply, snapctr, reverted_to, ro_at_run, runs, vm_failed
+//@   ensures[C06,C07] @noncekept err != nil && runs > old(runs) ==> snapnonces[old(snapctr)][refaddr(caller)] == old(nonces[refaddr(caller)]) + 1
+//@   assigns bal, nonces, refundctr, supply, snapctr, snapnonces, reverted_to, ro_at_run, runs, vm_failed
 //@   noframe
 
 // The other call kinds: same revert-on-error, depth limit and gas bound.
@@ -260,14 +263,14 @@ package vm
 //@   ensures[C07] @gas leftOverGas <= gas
 //@   ensures[C07] @revert err != nil && runs > old(runs) ==> reverted_to == old(snapctr)
 //@   ensures[C07] @depth !old(evm.vmConfig.NoRecursion && evm.depth > 0) && old(evm.depth) > 1024 ==> err == ErrDepth && runs == old(runs) && leftOverGas == gas
-//@   assigns bal, nonces, refundctr, supply, snapctr, reverted_to, ro_at_run, runs
+//@   assigns bal, nonces, refundctr, supply, snapctr, snapnonces, reverted_to, ro_at_run, runs
 //@   noframe
 //@ func EVM.DelegateCall
 //@   requires[C07] evm != nil && evm.interpreter != nil && evm.StateDB != nil
 //@   ensures[C07] @gas leftOverGas <= gas
 //@   ensures[C07] @revert err != nil && runs > old(runs) ==> reverted_to == old(snapctr)
 //@   ensures[C07] @depth !old(evm.vmConfig.NoRecursion && evm.depth > 0) && old(evm.depth) > 1024 ==> err == ErrDepth && runs == old(runs) && leftOverGas == gas
-//@   assigns bal, nonces, refundctr, supply, snapctr, reverted_to, ro_at_run, runs
+//@   assigns bal, nonces, refundctr, supply, snapctr, snapnonces, reverted_to, ro_at_run, runs
 //@   noframe
 
 // Trusted observer: a contract reference reports the same address every time it is asked.
@@ -295,6 +298,7 @@ package vm
 //@   trusted
 //@   ensures ro_at_run == old(evm.interpreter.readOnly) && evm.interpreter.readOnly == old(evm.interpreter.readOnly)
 //@   ensures contract.Gas <= old(contract.Gas) && runs > old(runs)
+//@   ensures snapctr >= old(snapctr) && (forall id uint64 :: id < old(snapctr) ==> snapnonces[id] == old(snapnonces[id]))
 //@   assigns ro_at_run, runs, inferred
 
 // A static call runs its frame with the read-only flag set, restores the flag to the caller's
